@@ -14,6 +14,7 @@ import (
 	"fmt"
 	"os"
 	"runtime"
+	"strings"
 	"sync"
 	"time"
 )
@@ -80,7 +81,17 @@ func Begin(i int) string {
 	Failed = nil
 	mainGID = gid()
 	seqMu.Lock()
-	seq, seqDone, seqOff = c.Sched, make([]bool, len(c.Sched)), false
+	// an event ending in "!" is one at which the engine's schedule took the processor away
+	// from the thread: natively the thread stays in that hook until everything recorded
+	// before its own next event (or, if it has none, everything recorded) has happened
+	seq, seqDone, seqOff = make([]string, len(c.Sched)), make([]bool, len(c.Sched)), false
+	seqPre = make([]bool, len(c.Sched))
+	for i, e := range c.Sched {
+		if strings.HasSuffix(e, "!") {
+			seqPre[i], e = true, e[:len(e)-1]
+		}
+		seq[i] = e
+	}
 	threadNames = map[uint64]string{}
 	seqMu.Unlock()
 	emit(fmt.Sprintf("== case %d", i))
@@ -244,7 +255,23 @@ func Run(n string, f func()) {
 }
 
 func SchedMode(preemptions int) { mainGid = gid() }
-func SchedOff()                 {}
+
+// SchedMain marks the calling goroutine as the harness's own. Called before the first
+// operation that can start a library goroutine, so that natively such a goroutine (named
+// "bg") is held at its first recorded schedule point from the very beginning - a rotation
+// that the counterexample needs to be still pending must not run ahead.
+func SchedMain() {
+	seqMu.Lock()
+	mainGid = gid()
+	seqMu.Unlock()
+}
+func SchedOff() {}
+
+// SchedAtomics: under the engine, also offer a preemption before every sync/atomic
+// operation executed by /repo code (the window between a check and the action it guards).
+// Natively those places become schedule points through a source overlay that vcheck
+// generates from the counterexample (tools/instr).
+func SchedAtomics(on bool) {}
 
 // ---- native schedule replay ------------------------------------------------
 //
@@ -261,6 +288,7 @@ var (
 	seqCond     = sync.NewCond(&seqMu)
 	seq         []string
 	seqDone     []bool
+	seqPre      []bool
 	seqOff      bool
 	threadNames = map[uint64]string{}
 	spawned     sync.WaitGroup
@@ -338,23 +366,20 @@ func Sched(point string) {
 		return
 	}
 	seqDone[mine] = true
-	// stay in the hook until everything ordered before my next event has happened
+	if os.Getenv("VRT_SCHEDLOG") != "" {
+		emit("S:" + me)
+	}
+	if !seqPre[mine] {
+		return // not preempted here: carry on
+	}
+	// preempted here: stay in the hook until everything ordered before my next event has
+	// happened (all of the rest when this was my last event)
 	next := len(seq)
 	for i := mine + 1; i < len(seq); i++ {
 		if len(seq[i]) > len(name) && seq[i][:len(name)+1] == name+"|" {
 			next = i
 			break
 		}
-	}
-	if next == len(seq) {
-		// no later event of mine: if other threads' events follow directly, let them go first
-		for i := mine + 1; i < len(seq); i++ {
-			next = i + 1
-		}
-		if mine+1 < len(seq) {
-			seqWaitOthers(mine+1, name)
-		}
-		return
 	}
 	seqWait(next)
 }
@@ -399,6 +424,7 @@ func Spawn(name string, f func()) {
 			}
 		}()
 		f()
+		Sched("exit") // the end of the thread is an event of the recorded schedule
 	}()
 }
 
@@ -505,6 +531,10 @@ func TempDir() string {
 
 // OSFaults sets how many OS calls may still fail on a solver Boolean (engine only).
 func OSFaults(n int) {}
+
+// OSFaultsLeft: how many of the failures allowed by OSFaults have not been injected yet
+// (engine only; natively 0 - the injection is strace's and the harness cannot see it).
+func OSFaultsLeft() int { return 0 }
 
 // OSFileLen returns the length of a file in the engine's OS model (^0 if absent).
 func OSFileLen(path string) uint64 { return ^uint64(0) }
